@@ -16,7 +16,7 @@
    every run by executing the composed model AND two real stacks on the same scenarios (complete traces compared,
    event by event) and judging the implementation traces with the extracted check_C04 below. *)
 From PS Require Import Lib.Base Generated.Consts Model.SdTypes Model.Config Model.Session Model.StackTypes Model.Stack
-  Model.StackIO Model.System Spec.C08Spec Spec.C04Spec Proofs.C07Proofs Proofs.WorldInv Proofs.SystemProofs Model.Skel Generated.LogicGen Proofs.GenSkel.
+  Model.StackIO Model.System Spec.C08Spec Spec.C04Spec Proofs.C07Proofs Proofs.WorldInv Proofs.SystemProofs Model.Skel Generated.LogicGen Proofs.GenSkel Proofs.KeyEquiv Proofs.WorldInv2 Proofs.WorldLog Proofs.WorldSubs Proofs.FoundLog Proofs.WorldFound Proofs.SystemInv Proofs.SystemWhole.
 
 Theorem C04_crash_is_silent : forall t b nd fuel rv arrived w tr,
   node_step t b nd fuel rv [CCrash] arrived w tr = (None, match w with Some x => out x ++ tr | None => tr end, [], true).
@@ -65,6 +65,23 @@ Theorem C04_both_stacks_well_formed_in_every_state : forall sc,
   fresh_insts (nd_insts (ss_a sc)) -> fresh_insts (nd_insts (ss_b sc)) -> sys_ok (fst (sys_run_scenario sc)).
 Proof. exact sys_reachable_ok. Qed.
 
+(* the whole-run invariants of one stack - C15 conservation / C08 session ids / wire = history (Kinv), the truthful
+   alternating histories of the server listeners (S6, C06) and of the discovery listeners (F5, C05) - hold for the stack
+   living at EITHER address in every state of every run of the composition: after any sequence of graceful stop / start,
+   crash and restart of either side and any loss, duplication or reordering of datagrams *)
+Theorem C04_whole_run_invariants_in_the_composition : forall sc w,
+  fresh_insts (nd_insts (ss_a sc)) -> fresh_insts (nd_insts (ss_b sc)) ->
+  (sy_a (fst (sys_run_scenario sc)) = Some w \/ sy_b (fst (sys_run_scenario sc)) = Some w) ->
+  Kinv w /\ S6 w /\ F5 w.
+Proof. exact sys_whole_run_theorems. Qed.
+Theorem C04_listener_histories_truthful_in_the_composition : forall sc w,
+  fresh_insts (nd_insts (ss_a sc)) -> fresh_insts (nd_insts (ss_b sc)) ->
+  (sy_a (fst (sys_run_scenario sc)) = Some w \/ sy_b (fst (sys_run_scenario sc)) = Some w) ->
+  ((forall i a k, sub_live i a k (out w) = amem key_eqb (KSub k) (inner a (get_store (SSubs i) w))) /\ alt_ok (out w) = true)
+  /\ (forall id, tainted id (glog w) = false ->
+        (forall a k, up_l id a k (out w) = stored a k w && regm id k w) /\ altl id (out w) = true).
+Proof. exact sys_listener_histories. Qed.
+
 (* the per-entry dispatch of ServiceDiscoveryProtocol.sd_message_received in the model IS the control flow translated
    from the source text on every run (which component handles which entry type, directly or through call_soon) *)
 Theorem C04_dispatch_is_the_translated_source : forall h a mc w,
@@ -81,3 +98,5 @@ Print Assumptions C04_first_contact_is_no_reboot.
 Print Assumptions C04_network_reliable_outside_fault_window.
 Print Assumptions C04_latency_positive.
 Print Assumptions C04_dispatch_is_the_translated_source.
+Print Assumptions C04_whole_run_invariants_in_the_composition.
+Print Assumptions C04_listener_histories_truthful_in_the_composition.
